@@ -358,6 +358,16 @@ class GrammarEval:
             for t, x in zip(tgt.elts, v):
                 self.bind(t, x, env, mod, st)
             return
+        if isinstance(tgt, ast.Subscript):
+            # store into a concrete list / dict the evaluator holds (a table of elements patched in place)
+            box = self.ev(tgt.value, env, mod, None)
+            key = self.ev(tgt.slice, env, mod, None)
+            if isinstance(box, (list, dict)) and isinstance(key, (int, str)) and not isinstance(key, bool):
+                try:
+                    box[key] = v
+                    return
+                except (IndexError, KeyError):
+                    pass
         raise Unrecognised(f'assignment target `{norm(tgt)}`', st)
 
     # ------------------------------------------------------------------ expressions
